@@ -63,7 +63,7 @@ PATHS = ['/a', '/a/b', '/items/7', '/items/7/sub', '/s/x', '/s/y/z', '/st/f.txt'
 SINKS = [r'/s', r'/s/(?P<rest>.*)', r'/(?P<first>[^/]+)/(?P<second>.*)', r'/st', r'/q', r'/', r'/(?P<one>[a-z]+)$']
 # (prefix, directory key, fallback_filename)
 STATICS = [('/st/', 'a', None), ('/st', 'b', None), ('/st2/', 'b', None), ('/s/', 'a', None), ('/s', 'b', 'f.txt'),
-           ('/st', 'a', 'f.txt')]
+           ('/st', 'a', 'f.txt'), ('/st/', 'a', 'f.txt'), ('/s/', 'b', 'f.txt'), ('/st2/', 'b', 'f.txt')]   # fallback with and without the trailing slash in the registered prefix
 
 
 def kwstr(kw):
@@ -514,7 +514,7 @@ def _stack(ctx, root, asgi):
                 for _ in range(nreg):
                     register(app, reg, objs, counter)
                 for _ in range(rnd.randint(3, 5) if ph else rnd.randint(4, 6)):
-                    path = rnd.choice(PATHS + ['/st/f.txt', '/s/x', '/s/y/z', '/st/nope', '/st2/f.txt', '/s', '/st'])
+                    path = rnd.choice(PATHS + ['/st/f.txt', '/s/x', '/s/y/z', '/st/nope', '/st2/f.txt', '/s', '/st', '/st2', '/st2/'])
                     if reg.routes and rnd.random() < 0.55:
                         path = rnd.choice(reg.routes)[0].replace('{id}', rnd.choice(['7', 'x.y'])).replace('{top}', rnd.choice(['zz', 'a', 's', 'st']))
                     method = rnd.choice(ALLM + ['GET', 'GET', 'GET', 'OPTIONS', 'OPTIONS', 'OPTIONS', 'OPTIONS', 'HEAD', 'FOO', 'WEBSOCKET'])
